@@ -115,6 +115,14 @@ def run(ctx):
         sc = af.scenario_from_cex(cex, "cex-stale-upgrade", "local")
         scenarios.append(sc)
         ctx.sample({"adversarial_scenario": sc["name"], "steps": sc["steps"]})
+    # a queued upgrade overtaken by a writer the agent knows nothing of (a CLI command beside it): the upgrade, made for the old
+    # password, must be dropped - the directory ends with the external writer's password
+    up1 = {"u1": {"present": True, "pw": "p1", "set": 1, "adm": False}, "u2": {"present": True, "pw": "p2", "set": 2, "adm": True}}
+    scenarios.append({"name": "upgrade-overtaken-by-external-writer", "mode": "local", "default": 2, "files": up1, "passwords": af.PASSWORDS, "gated": True,
+                      "seed": 1, "forced": False, "filler": 0, "novalidate": True,
+                      "steps": [{"t": "send", "c": "c1", "k": "auth", "u": "u1", "p": "p1", "a": False}, {"t": "recv"}, {"t": "upsend"},
+                                {"t": "extupdate", "u": "u1", "p": "p2"}, {"t": "recv"}, {"t": "free"}],
+                      "expect_idle": {"u1": {"set": 2, "pw": "p2", "adm": False}}, "expect_prop": "C11", "expect_key": "acked-change-undone:external-writer"})
     sims = af.simulated_scenarios(ctx, 40 if not thorough else 400)
     for i, sc in enumerate(sims):       # every second behaviour goes through the real frontends
         if i % 2:
